@@ -22,7 +22,7 @@ def _sig(kind, where="service/tcp.go"):
     return {"module": "TcpConn", "kind": kind, "where": where}
 
 
-def family(ctx, behs, label, timeout_ms, unit_ms=200, par=8, extra=()):
+def family(ctx, behs, label, timeout_ms, unit_ms=200, par=8, extra=(), injected=False):
     """One scenario family in a child process with leak accounting; all findings are reported here."""
     try:
         cases, brows, _, cmd = tc.replay(ctx, behs, label=label, timeout_ms=timeout_ms, unit_ms=unit_ms, par=par,
@@ -36,7 +36,14 @@ def family(ctx, behs, label, timeout_ms, unit_ms=200, par=8, extra=()):
         raise
     leak = json.load(open(cmd[cmd.index("-out") + 1] + ".leak.json"))
     ctx.cov["evaluations"] += len(behs)
-    if leak["panics"]:
+    ninj = sum(b.get("injectedPanics", 0) for b in brows)
+    if injected:
+        # fault injection: the panics raised by the harness' own dialer are expected to be recovered and logged; what is checked
+        # is containment (the process is alive - we got here -, the other connection is judged below, StreamServe went on)
+        ctx.cov.setdefault("c18_tcp", {})["injected_faults"] = {"injected": ninj, "recovered_and_logged": len(leak["panics"])}
+        if ninj == 0:
+            raise vlib.Inconclusive("containment family: no fault was injected")
+    if len(leak["panics"]) > ninj:
         ctx.violation(_sig("recovered-panic"), "family %s: %d recovered panic(s) in TCP handlers: %s" % (label, len(leak["panics"]), leak["panics"][:3]),
                       {"module": "TcpConn", "label": label, "panics": leak["panics"], "behaviours": behs[:50]})
     if leak["goroutines"]:
@@ -60,6 +67,8 @@ def family(ctx, behs, label, timeout_ms, unit_ms=200, par=8, extra=()):
                       {"module": "TcpConn", "label": label, "behaviour": behs[notret[0]["beh"]], "timeout_ms": timeout_ms})
     # per-connection judgement (includes C18_HandlerReturned); failures of other properties' predicates in a two-connection
     # run mean that one connection disturbed the other
+    if injected:
+        cases = [c for c in cases if c["c"] != 1]     # connection 1 is the one whose handler the injected fault kills
     bad = tc.judge(ctx, cases, tc.REAL_SLACK, label=label)
     seen = set()
     for i in sorted(bad):
@@ -143,6 +152,61 @@ def run_part(ctx):
     family(ctx, cb + tgt, "c18-crafted-plaintext-and-targets", 5000, par=8)
     ctx.cov["distinct_nontrivial"] += len(cb) + len(tgt)
     ctx.cov.setdefault("c18_tcp", {})["crafted_classes"] = classes
+
+    # (b2) containment: a fault in the handling of ONE connection (the StreamDialer panics when connection 1 is dialled) must
+    #      stay there: the process lives, StreamServe goes on accepting, connection 2 (which arrives afterwards) is proxied
+    cb2 = tc.gen(ctx, "Gen_TcpConn_C18Contain.cfg", 1500 if q else 6000, seed=ctx.seed + 6, depth=220)
+    cb2 = [b for b in cb2 if any(e["a"] == "Dial" and e["c"] == 1 for e in b["tr"])
+           and any(e["a"] == "Dial" and e["c"] == 2 and e["v"] == 1 for e in b["tr"])
+           and any(e["a"] in ("TRecv", "CRecv") and e["c"] == 2 for e in b["tr"])]
+    cpick = []
+    for b in tc.select(cb2, 12 if q else 100, lambda f: (f["trecv"], f["crecv"]), rng):
+        b = copy.deepcopy(b)
+        b["ov"] = {"craft": "dialpanic"}
+        cpick.append(b)
+    if len(cpick) < 5:
+        raise vlib.Inconclusive("only %d containment behaviours" % len(cpick))
+    ccases, cbrows = family(ctx, cpick, "c18-containment-injected-fault", 5000, par=4, injected=True)
+    served = [c for c in ccases if c["c"] == 2 and c["mlog"] and c["mlog"][-1]["s"] == "OK"]
+    if cbrows and len(served) < len(cpick):
+        other = [c for c in ccases if c["c"] == 2 and not (c["mlog"] and c["mlog"][-1]["s"] == "OK")]
+        ctx.violation(_sig("fault-not-contained"), "after a panic in the handler of connection 1 (injected in the StreamDialer), connection 2 "
+                      "was not proxied to completion in %d of %d runs, e.g. %s" % (len(cpick) - len(served), len(cpick),
+                                                                                     json.dumps(tc.brief(other[0])) if other else "no record"),
+                      {"module": "TcpConn", "behaviours": cpick[:20], "timeout_ms": 5000})
+    ctx.cov["distinct_nontrivial"] += len(cpick)
+
+    # (b3) connections accepted in the instant before accept reports net.ErrClosed: StreamServe returns only after their
+    #      handlers (model: Accept(c) for all c, CloseListener, ServeBreak with every handler still at "start")
+    of = os.path.join(ctx.sub("burst"), "burst.ndjson")
+    rc, out, err = vlib.run([tc.driver(ctx), "burst", "-rounds", str(30 if q else 200), "-n", "3", "-seed", str(ctx.seed), "-out", of],
+                            env=vlib.goenv(), timeout=900)
+    if rc != 0:
+        if "panic:" in err or "fatal error:" in err:
+            ctx.violation(_sig("process-crash"), "the process died in the accept-burst scenario: %s" % err[-1500:], {"module": "TcpConn"})
+        else:
+            raise vlib.Inconclusive("tcpconn burst failed rc=%d: %s" % (rc, err[-1500:]))
+    else:
+        rows = vlib.read_ndjson(of)
+        early = [r for r in rows if r["serveReturned"] and r["finishedAtReturn"] < r["accepted"]]
+        never = [r for r in rows if not r["serveReturned"]]
+        noeof = [r for r in rows if r["clientsSawEOF"] < r["n"]]
+        ctx.cov["evaluations"] += len(rows)
+        ctx.cov["distinct_nontrivial"] += 1
+        ctx.cov.setdefault("c18_tcp", {})["accept_burst"] = {"rounds": len(rows), "returned_before_handlers": len(early),
+                                                            "never_returned": len(never), "client_without_eof": len(noeof)}
+        if early:
+            ctx.violation(_sig("serve-returned-before-handlers", "service/tcp.go StreamServe"),
+                          "StreamServe returned while handlers of connections it had accepted just before the listener closed had not "
+                          "returned (%d of %d rounds), e.g. %s" % (len(early), len(rows), json.dumps(early[0])),
+                          {"module": "TcpConn", "burst": early[:5]})
+        if never:
+            ctx.violation(_sig("serve-never-returned", "service/tcp.go StreamServe"),
+                          "StreamServe did not return within 5 s after the listener closed: %s" % json.dumps(never[0]), {"module": "TcpConn", "burst": never[:5]})
+        if noeof and not early:
+            ctx.violation(_sig("accepted-connection-not-closed", "service/tcp.go StreamServe"),
+                          "a connection accepted just before the listener closed never saw the end of stream: %s" % json.dumps(noeof[0]),
+                          {"module": "TcpConn", "burst": noeof[:5]})
 
     # (c) raw garbage and replays with a short timeout (probe classes), many at once
     g = tc.gen(ctx, "Gen_TcpConn_C06NoFin.cfg", 600 if q else 4000, seed=ctx.seed + 4)
